@@ -202,3 +202,18 @@ package graph
 //@   property C19
 //@   option nosafety
 //@   option safety slice,index
+
+// ------------------------------------------------------------------ C20: the shadow evaluation is bounded by its timeout
+// the background shadow Check runs under the context derived with the shadow timeout (and cancelled on exit), on a
+// clone of the request — never under a context without deadline
+//@ func (ShadowResolver).ResolveCheck$1()
+//@   property C20
+//@   option nosafety
+//@   option defer_neutral
+//@   monitor bounded
+//@     ghost tctx iface = nil
+//@     ghost derived = false
+//@     ghost cancelArmed = false
+//@     after call context.WithTimeout args parent, d returning c, cancel : tctx = c ; derived = d == s.shadowTimeout
+//@     after call defer:dynamic : cancelArmed = true
+//@     before call graph.CheckResolver.ResolveCheck args _, c, r : assert derived && c == tctx && cancelArmed
